@@ -172,7 +172,7 @@ func makeLoopDecorator(loop loopRenderer, ctx render.Context) (loopDecorator, er
 			if err != nil {
 				return nil, err
 			}
-			cols, ok := val.(int)
+			cols, ok := values.AsInt(val)
 			if !ok {
 				return nil, ctx.Errorf("loop cols must be an integer")
 			}
@@ -232,7 +232,7 @@ func applyLoopModifiers(loop expressions.Loop, ctx render.Context, iter iterable
 		if err != nil {
 			return nil, err
 		}
-		offset, ok := val.(int)
+		offset, ok := values.AsInt(val)
 		if !ok {
 			return nil, ctx.Errorf("loop offset must be an integer")
 		}
@@ -246,7 +246,7 @@ func applyLoopModifiers(loop expressions.Loop, ctx render.Context, iter iterable
 		if err != nil {
 			return nil, err
 		}
-		limit, ok := val.(int)
+		limit, ok := values.AsInt(val)
 		if !ok {
 			return nil, ctx.Errorf("loop limit must be an integer")
 		}
